@@ -360,3 +360,80 @@ func (g *Gen) HistoryReopen() []E {
 	}
 	return evs
 }
+
+// ---------------------------------------------------------------- criteria algebra (C16)
+
+// HistoryAlgebra loads one collection and asks for the result sets of algebraically equivalent
+// criteria (De Morgan forms, double negation, Neq / Not Eq, In / disjunction of Eq), with literals
+// in every Go numeric kind and every reference operand form.
+func (g *Gen) HistoryAlgebra() []E {
+	c := g.colls[0]
+	g.created[c] = true
+	g.live[c] = map[string]bool{}
+	g.idx[c] = map[string]bool{}
+	evs := []E{{"op": "CreateCollection", "c": c}}
+	if g.chance(0.5) {
+		f := g.pick([]string{"x", "xy", "n.a"})
+		g.idx[c][f] = true
+		evs = append(evs, E{"op": "CreateIndex", "c": c, "f": B(f)})
+	}
+	docs := make([]interface{}, 0)
+	for _, id := range g.ids {
+		docs = append(docs, g.doc(AStr(id)))
+	}
+	evs = append(evs, E{"op": "Insert", "c": c, "docs": docs})
+	g.setFocus(c)
+	find := func(crit []interface{}) {
+		evs = append(evs, E{"op": "FindAll", "c": c, "q": []interface{}{[]interface{}{"where", crit}}})
+	}
+	not := func(x []interface{}) []interface{} { return []interface{}{"not", x} }
+	for len(evs) < g.P.Ops {
+		a, b := g.crit(2), g.crit(2)
+		switch g.r.Intn(6) {
+		case 0:
+			find(not([]interface{}{"and", a, b}))
+			find([]interface{}{"or", not(a), not(b)})
+		case 1:
+			find(not([]interface{}{"or", a, b}))
+			find([]interface{}{"and", not(a), not(b)})
+		case 2:
+			find(a)
+			find(not(not(a)))
+			find(not(a))
+		case 3: // the same literal in every Go numeric kind
+			f := g.leafField()
+			ord := g.smallN[g.r.Intn(len(g.smallN))]
+			op := []string{"eq", "gt", "lte", "in", "contains"}[g.r.Intn(5)]
+			for _, kind := range numKinds {
+				v := ANum(ord, "i")
+				if _, ok := g.U.GammaKind(v, kind); !ok {
+					continue
+				}
+				lit := []interface{}{"lit", canonicalFor(g.U, v, kind), kind}
+				if op == "in" || op == "contains" {
+					ff := f
+					if op == "contains" {
+						ff = "arr"
+					}
+					find([]interface{}{"un", op, B(ff), []interface{}{"list", []interface{}{lit}}})
+				} else {
+					find([]interface{}{"un", op, B(f), lit})
+				}
+			}
+		case 4: // In as a disjunction of equalities
+			f := g.leafField()
+			o1, o2 := g.operand(f), g.operand(f)
+			find([]interface{}{"un", "in", B(f), []interface{}{"list", []interface{}{o1, o2}}})
+			find([]interface{}{"or", []interface{}{"un", "eq", B(f), o1}, []interface{}{"un", "eq", B(f), o2}})
+		case 5: // reference operands, also to absent fields
+			f := g.leafField()
+			other := g.pick([]string{"x", "xy", "k", "missing", "n.a", "s"})
+			op := []string{"eq", "gt", "lt", "gte", "lte"}[g.r.Intn(5)]
+			find([]interface{}{"un", op, B(f), []interface{}{"ref", B(other)}})
+			find([]interface{}{"un", op, B(f), []interface{}{"dollar", B(other)}})
+			find([]interface{}{"un", "in", B(f), []interface{}{"list", []interface{}{[]interface{}{"ref", B(other)}, []interface{}{"dollar", B("missing")}}}})
+			find([]interface{}{"un", "contains", B("arr"), []interface{}{"list", []interface{}{[]interface{}{"ref", B(other)}}}})
+		}
+	}
+	return evs
+}
